@@ -556,3 +556,83 @@ def leading_zero_tests(chk, rule, fi, base, construct, what="the leading entry",
         chk.ob(rule, "%s{leading-zero test}" % construct, "a test `%s[0] == 0` is present" % base, False, derived="%d found" % found, inconclusive=True,
                loc=fi.loc())
     return found
+
+
+def plateau_cleaner_exact(chk, rule):
+    """The plateau cleaner keeps exactly the samples that differ from their predecessor: the kept set is read off the *exact* successive
+    differences (`diff != 0`, or the complementary `== 0`); the differences are not edited between the subtraction and the test and no
+    tolerance enters (a sample that differs by one ulp is a change of value: peak and crossing detection is stated for every series)."""
+    qc = "eqsig.fns.peaks_and_crossings.clean_out_non_changing"
+    try:
+        chk.P.fn(qc)
+    except Exception:
+        return
+    rc = analyse(chk, qc, lambda I, st, fi: dict(values=rec_array("values")))
+    c = "eqsig/fns/peaks_and_crossings.py:clean_out_non_changing{kept samples}"
+    ev = list(rc.I.events)
+    tests = [(k, e) for k, e in enumerate(ev) if e.kind == "compare" and e.op in ("NotEq", "Eq") and "diff" in e.left.tags and
+             e.right.has_const() and e.right.const == 0]
+    if not tests:
+        # the same test spelled as "positions of the non-zero differences": np.flatnonzero(d) / np.nonzero(d) / np.where(d) / np.count_nonzero(d)
+        nz = [(k, e) for k, e in enumerate(ev) if e.kind == "lib-call" and e.name in ("numpy.where", "numpy.nonzero", "numpy.flatnonzero", "numpy.count_nonzero")
+              and e.args and len(e.args) == 1 and e.args[0].kind == K_ARRAY and "diff" in e.args[0].tags and e.args[0].dtype != "bool"]
+        if nz:
+            k0, t0 = nz[0]
+            edits = [e for e in ev[:k0] if e.kind == "mutation" and (e.origins or frozenset()) & t0.args[0].origin]
+            tol = [e for e in ev if e.kind == "lib-call" and e.name in ("numpy.isclose", "numpy.allclose", "math.isclose", "numpy.round", "numpy.around")]
+            chk.ob(rule, c, "the differences tested against 0 are the exact successive differences (not edited, no tolerance)", not edits and not tol,
+                   derived=("edited before the test: %s" % edits[0].stmt) if edits else (("tolerance / rounding: %s" % tol[0].name) if tol else
+                                                                                       "exact differences, non-zero positions by %s" % t0.name),
+                   loc=(edits[0].loc if edits else (tol[0].loc if tol else t0.loc)), stmt=(edits[0].stmt if edits else (tol[0].stmt if tol else t0.stmt)))
+            return
+        chk.ob(rule, c, "the kept samples are those whose difference to the predecessor is not zero", False,
+               derived="no test of successive differences against 0 located", inconclusive=True, loc=rc.fi.loc())
+        return
+    k0, t0 = tests[0]
+    edits = [e for e in ev[:k0] if e.kind == "mutation" and (e.origins or frozenset()) & t0.left.origin]
+    tol = [e for e in ev if e.kind == "lib-call" and e.name in ("numpy.isclose", "numpy.allclose", "math.isclose", "numpy.round", "numpy.around")]
+    ok = not edits and not tol
+    chk.ob(rule, c, "the differences tested against 0 are the exact successive differences (not edited, no tolerance)", ok,
+           derived=("edited before the test: %s" % edits[0].stmt) if edits else (("tolerance / rounding: %s" % tol[0].name) if tol else
+                                                                               "exact differences, test `%s 0`" % {"NotEq": "!=", "Eq": "=="}[t0.op]),
+           loc=(edits[0].loc if edits else (tol[0].loc if tol else t0.loc)), stmt=(edits[0].stmt if edits else (tol[0].stmt if tol else t0.stmt)))
+
+
+def owns_values(chk, rule):
+    """Each signal object owns its samples: what the constructor and `reset_values` store as the values is a fresh array, never the caller's
+    (two objects built from one array, or an object and the caller, would otherwise share a buffer; an in-place correction of one then changes
+    the samples under the other, whose lazily kept series no longer belong to its values)."""
+    import ast as _ast
+    P = chk.P
+    for cq in ("eqsig.single.Signal", "eqsig.single.AccSignal"):
+        ci = P.cls(cq)
+        init = ci.find_method("__init__")
+        I = Interp(P)
+        I.atoms = {R, DT}
+        st = State()
+        fr = Frame(init, st, I)
+        node = _ast.parse("X(v, d)").body[0].value
+        oav = I.instantiate(fr, ci, [rec_array("values"), pos_scalar("dt", DT)], {}, node)
+        chk.absorb_interp(I)
+        v = st.heap[oav.obj].attrs.get("_values")
+        pt = sorted(t for t in (v.origin if v is not None else ()) if t.startswith("p:"))
+        unknown = v is None or v.indef or "?" in v.origin
+        chk.ob(rule, "%s:%s.__init__{owns values}" % (ci.module.relpath, ci.name), "the stored values are a fresh array (a copy of the argument)",
+               v is not None and not pt, derived="origin %s" % (sorted(v.origin) if v is not None else None), loc=init.loc(),
+               inconclusive=(not pt and unknown))
+        rv = ci.find_method("reset_values")
+        if rv is None:
+            continue
+        I = Interp(P)
+        I.atoms = {R, DT}
+        st = State()
+        o, oav = make_signal(I, st, ci, name="self", flags="unknown", is_param=False)
+        bound = I.bind(rv, [oav], {rv.params[1]: rec_array("new_values", n="m")}, None, None)
+        I.run(rv, bound, st, self_obj=o)
+        chk.absorb_interp(I)
+        v = st.heap[o.id].attrs.get("_values")
+        pt = sorted(t for t in (v.origin if v is not None else ()) if t.startswith("p:"))
+        unknown = v is None or v.indef or "?" in v.origin
+        chk.ob(rule, "%s:%s.reset_values{owns values}" % (ci.module.relpath, ci.name), "the stored values are a fresh array (a copy of the argument)",
+               v is not None and not pt, derived="origin %s" % (sorted(v.origin) if v is not None else None), loc=rv.loc(),
+               inconclusive=(not pt and unknown))
